@@ -77,6 +77,14 @@ class ProgProp:
             n = int(case["codelen"])
             if n < 1 or n > 20000:
                 return {"reject": "malformed-table-case"}
+            if tab.v >= (3, 10):
+                # a 3.10 table whose lines go below 1: CPython reports a negative line as "no line"
+                line = int(case["first"])
+                for b in rw.unhx(case["table"])[1::2]:
+                    if b != 128:
+                        line += b - 256 if b > 127 else b
+                    if line < 1:
+                        return {"reject": "malformed-table-case"}
             unit = bytes([nop, 0]) if tab.v >= (3, 6) else bytes([nop])
             code = (unit * n)[:n]
             f["co_linetable"] = ["y", case["table"]]
